@@ -301,6 +301,23 @@ def make_case(prop, seed, i, tier):
         return dict(prop=prop, i=i, kind="sim", spec=gen_partial_operators(rng), family="partial-operators")
     if i % 2 == 0:
         return dict(prop=prop, i=i, kind="direct", seed=rng.randrange(10 ** 9), n_calls=40)
+    if i % 16 == 11:
+        # the same family stretched to runs of hundreds of steps: tasks wait READY for more than a hundred steps
+        spec = gen_returning_worker(rng)
+        f = rng.choice([25, 40, 60])
+        for t in spec["tasks"]:
+            t["work"] = t["work"] * f
+        for tm in spec["teams"]:
+            for w in tm["workers"]:
+                if w["absence"]:
+                    a0 = w["absence"][0] * f
+                    w["absence"] = list(range(a0, a0 + len(w["absence"]) * f))
+        spec["sim"]["max_time"] = 3000
+        if rng.random() < 0.5:
+            spec["sim"]["rule"] = 4       # FIFO
+        return dict(prop=prop, i=i, kind="sim", spec=spec, family="returning-worker-long")
+    if i % 16 == 9:
+        return dict(prop=prop, i=i, kind="sim", spec=G.gen_scale(rng), family="scale")
     if i % 8 in (3, 7):
         return dict(prop=prop, i=i, kind="sim", spec=gen_returning_worker(rng), family="returning-worker")
     spec = G.gen_random(rng, G.profile(facility_rich=rng.random() < 0.45, min_tasks=3, ensure_worker=0.9))
